@@ -108,13 +108,17 @@ theorem rotationAndStrainCore_conj (Q : Mat3) (hQ : IsOrth Q) (phase : Int) (crs
     rotationAndStrainCore phase crss (mmul A (tr Q)) (conj Q D) (conj Q L) p n lam
       = (mmul (rotationAndStrainCore phase crss A D L p n lam).1 (tr Q),
          (rotationAndStrainCore phase crss A D L p n lam).2) := by
-  have hz : (zero3 : Mat3) = mmul zero3 (tr Q) := by
-    funext i j; simp [mmul, zero3, sum3]
+  have hc0 : conj Q zero3 = zero3 := by
+    funext i j; simp [conj, mmul, zero3, sum3]
+  have hz : noSlipRotation (mmul A (tr Q)) (conj Q L) = mmul (noSlipRotation A L) (tr Q) := by
+    have := orientationChange_conj Q A L zero3 0 hQ
+    rw [hc0] at this
+    simpa only [noSlipRotation, Mat3.memo_eq] using this
   unfold rotationAndStrainCore
   simp only [vec4memo_eq, perm4memo_eq, slipInvariants_conj Q D A hQ]
   split_ifs
-  · simp only [← hz]
-  · simp only [← hz]
+  · simp only [hz]
+  · simp only [hz]
   · exact rotationFromRates_conj Q hQ crss A L _ p n lam
   · exact rotationFromRates_conj Q hQ crss A L _ p n lam
 
